@@ -236,6 +236,11 @@ func (root *Root) resolveSels(
 
 func (root *Root) skipSel(sel Selection, vars map[string]interface{}) (skip bool, ea []error) {
 	for _, du := range sel.Directives() {
+		if skip {
+			// Once one directive excludes the selection a later one can not
+			// include it again.
+			break
+		}
 		switch du.Directive.Name() {
 		case "skip":
 			// Check on argument exist and type are checked during parse and
